@@ -4,21 +4,24 @@ schedules, API faults, stale Lists and forced name clashes, judged by DeployCorr
 import json
 import vlib, deplib as dl, depgen, depcheck as dc
 
-NAMES = ["spec", "prev", "one", "unique", "monotone", "stable", "noreuse"]
+NAMES = ["spec", "prev", "one", "unique", "monotone", "stable", "noreuse", "progress"]
 WHAT = {"spec": "C07 ObjectSet created with a spec other than the template, or while paused / without phases",
         "prev": "C07 ObjectSet created while a sibling has no revision, or previous list incomplete",
         "one": "C07 second ObjectSet created although the newest one has the template's spec",
         "unique": "C07 two ObjectSets of a deployment share a revision number",
         "monotone": "C07 reported revision does not exceed the revisions of the other ObjectSets",
         "stable": "C07 reported revision changed",
-        "noreuse": "C07 name clash with an archived / different ObjectSet resolved by reusing it (or collisionCount not bumped)"}
+        "noreuse": "C07 name clash with an archived / different ObjectSet resolved by reusing it (or collisionCount not bumped)",
+        "progress": "C07 template not matched by the newest ObjectSet (template change or revert to an earlier template) and no new ObjectSet requested"}
 
 
-def identity(name, sc):
+def identity(name, sc, agree):
+    """F-C07b (open) is the model-confirmed behaviour in the create-not-listed window: it is only named when the model
+    agrees with the implementation on the whole history; anything else keeps its own identity."""
     if dc.has_stale(sc):
         if name == "one":
-            return dc.ID_C07
-        if name in ("prev", "unique", "monotone"):
+            return dc.ID_C07          # fixed by 0384cff: reported as a violation again if it comes back
+        if name in ("prev", "unique", "monotone") and agree:
             return dc.ID_C07B
     return WHAT[name]
 
@@ -39,15 +42,14 @@ def check(run, tier, seed, replay=None):
     if not ok:
         run.violation("corr:harness-build", {"correspondence": "harness no longer builds against the tree", "log": blog[-4000:]}, False)
         return
-    if not dc.detect_variants(run):
-        return
+    dc.note_shapes(run)
     if replay:
         d = json.load(open(replay))["replay"]
         ctx = dl.Ctx(d["scenario"]["alphabet"], cluster=d["scenario"]["dep"]["kind"] == 6)
         pairs = [(ctx, d["scenario"])]
     else:
         pairs = depgen.corpus() + depgen.histories(seed, 300 if tier == "quick" else 5000)
-    res = dl.run_cases(run, pairs, "judge07", 8, "From PKOCorr Require Import C08Corr C07Corr.", shard=100)
+    res = dl.run_cases(run, pairs, "judge07", 9, "From PKOCorr Require Import C08Corr C07Corr.", shard=100)
     npass = 0
     for ctx, sc, obs, r in res:
         if r is None:
@@ -61,15 +63,17 @@ def check(run, tier, seed, replay=None):
         for name, okk in zip(NAMES, mons):
             if not okk:
                 concrete = True
-                run.violation(identity(name, sc), {"scenario": dl.slim(sc), "impl": dc.slim_obs(obs), "monitor": name}, True)
+                run.violation(identity(name, sc, agree), {"scenario": dl.slim(sc), "impl": dc.slim_obs(obs), "monitor": name}, True)
         if not agree and not concrete:
             run.violation("corr:C07/deployment model and implementation differ",
-                          {"correspondence": "DeployCorr.agree (%s)" % run.cov.get("implementation_model"), "scenario": dl.slim(sc),
+                          {"correspondence": "DeployCorr.agree", "scenario": dl.slim(sc),
                            "impl": dc.slim_obs(obs)}, False)
     run.cov["evaluations"] = len(res)
     run.cov["deployment_passes"] = npass
-    run.cov["rule"] = ("fixed corpus (rollout, F-C07 witness and its two neighbours, rollback, seven kinds of name-clash holders, pause/unpause, "
-                       "pruning, sliced handover) + seeded random histories: initial world of 0-3 earlier revisions and an optional forced clash on "
+    run.cov["rule"] = ("fixed corpus (rollout, F-C07 witness and its two neighbours, rollbacks T1->T2->T1 with the T1 revision live / archived / from scratch, "
+                       "seven kinds of name-clash holders, terminating newest / older revision, pause/unpause with all annotation x lifecycle states, "
+                       "pruning, sliced handover, handover race) + seeded random histories: initial world of 0-3 earlier revisions (12% terminating, "
+                       "paused-by-parent annotation independent of the lifecycle state) and an optional forced clash on "
                        "the next name (real hash), then 3-14 steps of template edits over a 4-template alphabet (reverts, no-ops, empty template), "
                        "deployment passes (20% with a stale List, 15% with an err/lost API fault at request 0-7), real ObjectSet controller passes, "
                        "status changes of ObjectSets, probe changes of members, pause toggles, limit changes; non-trivial = some deployment pass is "
